@@ -361,3 +361,19 @@ def callee1(a):
 @prim(_pred1)
 def pred1(a):
     raise RuntimeError('uninterpreted predicate: symbolic only')
+
+
+# ---- uninterpreted attributes of opaque items (node kind / name codes) for contracts over sibling lists ------------------
+def _item_attr(name):
+    from .values import ITEM_SORT
+    return z3.Function(name, ITEM_SORT, z3.IntSort())
+
+
+@prim(lambda ex, a: VInt(_item_attr('node_kind')(a.t)))
+def node_kind(a):
+    raise RuntimeError('uninterpreted attribute: symbolic only')
+
+
+@prim(lambda ex, a: VInt(_item_attr('node_name')(a.t)))
+def node_name(a):
+    raise RuntimeError('uninterpreted attribute: symbolic only')
